@@ -1,4 +1,5 @@
 //! Shared helpers for the correspondence harness: deterministic PRNG, JSON output.
+pub mod stores;
 use std::fmt::Write as _;
 
 /// splitmix64: every random choice of a run derives from one seed.
